@@ -646,6 +646,13 @@ func (e *env) opUnlock(p int) (string, string) {
 	line := "unlock " + e.ptok(p)
 	err := e.kmc.Unlock([]byte(e.passes[p]))
 	if err != nil {
+		// the passphrase every acknowledged operation left in force opens a locked wallet - in the running instance
+		// just as after a restart (C02: same passphrase behaviour; C03: the current passphrase governs all keystores)
+		e.h.Res.OracleEvals++
+		if p == e.priv && !e.unlocked && len(e.ksIDs()) > 0 && !e.faulty {
+			e.fail("C03", "current-passphrase-refused", "Unlock of the locked wallet with the current private passphrase #%d fails in the running instance: %v", p, err)
+			e.fail("C02", "current-passphrase-refused", "Unlock of the locked wallet with the current private passphrase #%d fails in the running instance: %v", p, err)
+		}
 		return line, "err " + errName(err)
 	}
 	e.guarded("Unlock", p)
